@@ -8,11 +8,12 @@ from .. import nodegen
 
 ID = "C13"
 SUITES = ["frame", "table", "node"]
-LEAN_MODULES = ["VpnCloud.Proofs.C13", "VpnCloud.Proofs.C13Node", "VpnCloud.Proofs.TableRefine", "VpnCloud.Proofs.GuardsUsed"]
+LEAN_MODULES = ["VpnCloud.Proofs.C13", "VpnCloud.Proofs.C13Node", "VpnCloud.Proofs.TableRefine", "VpnCloud.Proofs.GuardsUsed", "VpnCloud.Proofs.C13More"]
 THEOREMS = ["VpnCloud.Proofs.C13." + n for n in ("learn_spec", "learn_last_writer", "learn_expiry", "disconnect_forgets", "vlan_normalised", "vlan_normalised_model", "vlan_tag_injective", "tagged_ne_untagged")] + [
             "VpnCloud.Proofs.C13Node.no_learning_unless_flag", "VpnCloud.Proofs.C13Node.learning_records_source"]
 THEOREMS = THEOREMS + ["VpnCloud.Proofs.TableRefine." + n for n in ('table_refines', 'learned_until', 'learned_is_a_map', 'announce_drop_flushes_learned')]
 THEOREMS = THEOREMS + ["VpnCloud.Proofs.GuardsUsed." + n for n in ('cacheLive_boundary', 'learned_survives_until_timeout')]
+THEOREMS = THEOREMS + ["VpnCloud.Proofs.C13More." + n for n in ('learned_then_unicast', 'relearn_moves', 'learn_irrelevant_for_others', 'vlan_isolated', 'untagged_isolated', 'vlan_same_unicast', 'priority_tag_directs_untagged', 'untagged_directs_priority_tag', 'unknown_in_vlan_flooded', 'known_elsewhere_flooded', 'disconnect_forgets_node', 'disconnect_then_flooded', 'learned_survives_tick', 'silent_expires_node', 'no_learning_any_datagram', 'hub_router_never_learn', 'hub_router_cache_backed')]
 BATCH = 200
 SEARCH_BUDGET_S = 300
 RULE = ("suite frame: all 65536 tag-control values behind ethertype 81 00 (every value in both tiers), nested tags; suite table: learn / "
